@@ -116,6 +116,10 @@ def _jobs_for(prop, tier):
         return storage_jobs(cfgns, threads=2) + template_jobs([D, R, DE, REW], threads=3)
     if prop in ('C01', 'C02', 'C03', 'C04', 'C06', 'C08', 'C09', 'C10', 'C12', 'C13'):
         if quick:
+            if prop in ('C10', 'C08'):
+                # the generation-overflow behaviour differs per configuration (documented panic vs. wrap-around): both in the quick tier
+                # (seed C10k: a debug_assert that only fires under wrapping_version + debug assertions was exit 0 before)
+                return storage_jobs([(D, 1), (R, 2), (DE, 1), (DW, 1)])
             return storage_jobs([(D, 1), (R, 2), (DE, 1)])
         cfgns = [(c, n) for c in ALL_CFGS for n in (1, 2, 3)] + [(D, n) for n in range(4, 17)] + [(R, 17), (D, 32)]
         return storage_jobs(cfgns, threads=2)
